@@ -232,6 +232,23 @@ def run(ctx):
             cv = {(o.kind, id(o.ref) if o.kind == "call" else o.ref) for o in deep_roots(prog, ir, c.args[0], TRANSPARENT | {"deref_mut"})}
             if dv & cv:
                 diffs_merges.append(c)
+        # in apply mode the edits of the built-in unused-suppression rule belong to the file's ONE payload (the fix-diff vector): left
+        # in `matches` they become a second whole-file payload whose rewrite overwrites the first (finding F11's mechanism)
+        from ..query import iter_chain
+        joins = False
+        for c in diffs_merges:
+            if len(c.args) > 1:
+                _, lv = iter_chain(prog, ir, c.args[1])
+                if any(o.kind == "param" and "unused_suppressions" in field_path(o.proj) for lf, o in lv) or \
+                        any(o.kind == "param" and "unused_suppressions" in field_path(o.proj) for o in deep_roots(prog, ir, c.args[1], TRANSPARENT | {"into_iter", "map", "iter"})):
+                    joins = True
+        if not joins:
+            joins = any("unused_suppressions" in repr(ir.blocks[b]["s"]) + repr(ir.blocks[b]["t"]) for c in diffs_merges for b in ir.live_blocks if ir.dominates(b, c.bb) and b != c.bb and
+                        any(cc.bb == b and cc.name in ("into_iter", "iter", "drain") for cc in ir.calls))
+        ctx.ob("R1", "unused-suppression edits join the file's fix-diff vector in apply mode", joins,
+               "ScanResultInner::into_result extends diffs with self.unused_suppressions" if joins else
+               "the unused-suppression matches are never merged into ScanResult.diffs: under -U they reach the printer as a separate whole-file payload, and the rewrite of the later "
+               "payload overwrites the edits of the earlier one although both are counted as applied", where=ir.loc())
         sorts = [c for c in ir.calls if c.name.startswith("sort")]
         bad = [c for c in diffs_merges if path_avoiding(ir, c.bb, [s_.bb for s_ in sorts if ir.dominates(c.bb, s_.bb)], ir.return_blocks())]
         ctx.ob("R1", "diffs stay ordered after merging suppression edits", not bad and (bool(diffs_merges) or True),
